@@ -1,49 +1,43 @@
 import Driver.Wire
 import Koreo.Result
 namespace Koreo.Driver.C03
-open Lean (Json)
-open Koreo.Result Koreo.Wire
+open MiniJson Koreo.Result Koreo.Wire
 
 /-- {"c":"ok","v":<val>,"l":loc} | {"c":"retry","d":"5","m":..,"l":..} | {"c":"skip"|"depSkip"|"permFail","m":..,"l":..} -/
-def toOutcome (j : Json) : Except String (Outcome JVal) := do
-  let c ← j.getObjValAs? String "c"
-  let m := optStr (j.getObjValD "m")
-  let l := optStr (j.getObjValD "l")
+def toOutcome (j : J) : Except String (Outcome JVal) := do
+  let c ← j.getStr "c"
+  let m := (j.getD "m").str?
+  let l := (j.getD "l").str?
   match c with
   | "depSkip" => pure (.depSkip m l)
   | "skip" => pure (.skip m l)
   | "permFail" => pure (.permFail m l)
-  | "retry" =>
-    let d ← j.getObjValAs? String "d"
-    match d.toInt? with
-    | some d => pure (.retry d m l)
-    | none => throw "bad delay"
-  | "ok" => pure (.ok (.raw (← toJVal (j.getObjValD "v"))) l)
+  | "retry" => pure (.retry (← j.getInt "d") m l)
+  | "ok" => pure (.ok (.raw (← toJVal (j.getD "v"))) l)
   | _ => throw s!"bad class {c}"
 
-def ofCombined : Combined JVal → Json
-  | .okList vs l => Json.mkObj [("c", "ok"), ("v", .arr (vs.map ofJVal).toArray), ("l", ofOptStr l)]
-  | .nonOk (.depSkip m l) => Json.mkObj [("c", "depSkip"), ("m", ofOptStr m), ("l", ofOptStr l)]
-  | .nonOk (.skip m l) => Json.mkObj [("c", "skip"), ("m", ofOptStr m), ("l", ofOptStr l)]
-  | .nonOk (.permFail m l) => Json.mkObj [("c", "permFail"), ("m", ofOptStr m), ("l", ofOptStr l)]
+def ofCombined : Combined JVal → J
+  | .okList vs l => .obj [("c", .str "ok"), ("v", .arr (vs.map ofJVal)), ("l", J.ofOptStr l)]
+  | .nonOk (.depSkip m l) => .obj [("c", .str "depSkip"), ("m", J.ofOptStr m), ("l", J.ofOptStr l)]
+  | .nonOk (.skip m l) => .obj [("c", .str "skip"), ("m", J.ofOptStr m), ("l", J.ofOptStr l)]
+  | .nonOk (.permFail m l) => .obj [("c", .str "permFail"), ("m", J.ofOptStr m), ("l", J.ofOptStr l)]
   | .nonOk (.retry d m l) =>
-    Json.mkObj [("c", "retry"), ("d", .str (toString d)), ("m", ofOptStr m), ("l", ofOptStr l)]
-  | .nonOk (.ok ..) => Json.mkObj [("c", "internal-ok")]
+    .obj [("c", .str "retry"), ("d", .str (toString d)), ("m", J.ofOptStr m), ("l", J.ofOptStr l)]
+  | .nonOk (.ok ..) => .obj [("c", .str "internal-ok")]
 
 /-- {"op":"combine","xs":[outcome..]} | {"op":"unwrapped","xs":[outcome-or-{"c":"val","v":..}]} -/
-def handle (j : Json) : Except String Json := do
-  let op ← j.getObjValAs? String "op"
-  let xs ← j.getObjValAs? (Array Json) "xs"
+def handle (j : J) : Except String J := do
+  let op ← j.getStr "op"
+  let xs ← j.getArr "xs"
   match op with
-  | "combine" =>
-    let os ← xs.toList.mapM toOutcome
-    pure (ofCombined (combine os))
+  | "combine" => pure (ofCombined (combine (← xs.mapM toOutcome)))
   | "unwrapped" =>
-    let os ← xs.toList.mapM fun x => do
-      let c ← x.getObjValAs? String "c"
-      if c == "val" then pure (Unwrapped.val (← toJVal (x.getObjValD "v")))
+    let os ← xs.mapM fun x => do
+      if (← x.getStr "c") == "val" then pure (Unwrapped.val (← toJVal (x.getD "v")))
       else pure (Unwrapped.out (← toOutcome x))
     pure (ofCombined (unwrappedCombine os))
   | _ => throw s!"bad op {op}"
 
 end Koreo.Driver.C03
+
+def main : IO UInt32 := MiniJson.runLoop Koreo.Driver.C03.handle
